@@ -22,6 +22,7 @@
  Re for-each      : loops that act on every item are never left early (break / return).
  R8 mode copy    : the selected mode is copied onto the request completely and identically in every copy block.
  Rn arg roles     : a variable named like a parameter of the callee is handed to that parameter (no exchanged roles).
+ R9 path lookup  : each internal ROADM path is registered with the impairment profile looked up for the same (from, to) pair.
 """
 import ast
 
@@ -411,6 +412,13 @@ def rn_arg_roles(ctx):
     ctx.check('Rn.arg-roles', 'argument / parameter name scan', True, 'C06|arg-roles-scan', '', f'{n} argument(s) named like another parameter judged')
 
 
+def r_path_lookup(ctx):
+    """R9: each internal ROADM path is registered with the impairment profile looked up for the same (from, to) pair"""
+    from .common import roadm_path_lookup_rule
+    roadm_path_lookup_rule(ctx, 'R9.path-lookup', 'a per-degree impairment entry (path loss, OSNR) of the topology would be ignored and the default profile applied')
+    ctx.need('R9.path-lookup', 3)
+
+
 from ..memo import rule_for as _memo_rule
 
 RULES_MEMO = ('Rm.memo', _memo_rule('C06', 'the equalisation computed for another spectrum or target would be applied'))
@@ -420,4 +428,4 @@ from ..presence import rule_for as _presence_rule
 
 RULES_PRESENCE = ('Rp.presence', _presence_rule('C06', 'a ROADM target of exactly 0 dBm would be ignored and another target applied'))
 
-RULES = [('R6.stateless', r6_stateless), ('R1.formula', r1_formula), ('R2.policy', r2_policy), ('R4.one-policy', r4_one_policy), ('R5.design', r5_design), RULES_MEMO, RULES_PRESENCE, ('R7.channel-order', r7_channel_order), ('Rk.field-key', rk_field_key), ('Rx.export-keys', rx_export_keys), ('Re.for-each', re_foreach), ('R8.mode-copy', r_mode_copy), ('Rn.arg-roles', rn_arg_roles)]
+RULES = [('R6.stateless', r6_stateless), ('R1.formula', r1_formula), ('R2.policy', r2_policy), ('R4.one-policy', r4_one_policy), ('R5.design', r5_design), RULES_MEMO, RULES_PRESENCE, ('R7.channel-order', r7_channel_order), ('Rk.field-key', rk_field_key), ('Rx.export-keys', rx_export_keys), ('Re.for-each', re_foreach), ('R8.mode-copy', r_mode_copy), ('Rn.arg-roles', rn_arg_roles), ('R9.path-lookup', r_path_lookup)]
